@@ -173,12 +173,12 @@ def build(x):
         fr.sub('V-ATTR', r'^\s*#\[cfg\(not\(feature = "tokio"\)\)\]\s*\n', '', detail='cfg(not(feature = "tokio")) (default build) dropped')
     sd = x.top_fn(F, 'remote_send')
     common(sd)
-    sd.sub('V-ASSERT', r'assert_eq!\(buf\.len\(\), HEADER_SIZE \+ serialized_len as usize\);', '{ let __c: bool = buf.len() == HEADER_SIZE + serialized_len as usize; if !__c { rust_panic(); } }', detail='assert_eq!(a, b) -> panic obligation')
-    sd.sub('V-SUBST', r'buf\.as_ref\(\)', 'buf.as_slice()', detail='Vec::as_ref() -> as_slice() (same slice)')
+    sd.sub('V-ASSERT', r'assert_eq!\(([^,;]+), ([^;]+)\);', r'{ let __c: bool = \1 == \2; if !__c { rust_panic(); } }', detail='assert_eq!(a, b) -> panic obligation')
+    sd.sub('V-SUBST', r'(\w+)\.as_ref\(\)', r'\1.as_slice()', detail='Vec::as_ref() -> as_slice() (same slice)')
     sd.add_spec(SEND_SPEC)
     rc = x.top_fn(F, 'remote_recv')
     common(rc)
-    rc.sub('V-SUBST', r'buf\.as_ref\(\)', 'buf.as_slice()', detail='Vec::as_ref() -> as_slice() (same slice)')
+    rc.sub('V-SUBST', r'(\w+)\.as_ref\(\)', r'\1.as_slice()', detail='Vec::as_ref() -> as_slice() (same slice)')
     rc.name_result('r')
     rc.add_spec(RECV_SPEC)
     rc.insert_at_body_start(HINT_WF)
